@@ -92,3 +92,17 @@ def apply_verdicts(rep: Report, verdicts):
     """verdicts: iterable of (ok, rule, instance, construct, detail, key)"""
     for ok, rule, instance, construct, detail, key in verdicts:
         rep.check(ok, rule, instance, construct, detail, key=key)
+
+
+ALIASING = ("mutates-shared", "mutates-caller-container")
+
+
+def aliasing_event(path):
+    """An in-place update of a value that may alias an element state / caller array makes
+    every later read of that state see the modified value; the term-level comparison
+    (value semantics) is not valid on such a path, and the model's step is not what is
+    computed."""
+    for e in path.events:
+        if e[0] in ALIASING:
+            return e
+    return None
